@@ -15,30 +15,39 @@ def NoReversedD2 (file : List Line) (hs : List Hunk) : Prop :=
   ∀ h ∈ hs, ¬ (h.new.count = 0 ∧ h.new.start = 0 ∧ splice file 0 hs ≠ [])
 
 /-- the inherently ambiguous case is excluded: the first hunk does not apply exactly at its stated line of `B`
-    (in particular it is not a context-free insertion, which "fits" anywhere) -/
+    (in particular it is not a context-free insertion, which "fits" anywhere). Either the hunk has an old side
+    that is not admissible at the stated line, or it is the hunk of a file-creating patch (`@@ -0,0 +1,n @@`)
+    and the file now exists and is not empty -/
 def FirstHunkNoLongerFits (B : List Line) (h1 : Hunk) (o : ApplyOpts) : Prop :=
-  h1.old.count ≠ 0 ∧ admissibleB B h1 o.ignoreWhitespace o.maxFuzz h1.pos0.toNat 0 = false
+  (h1.old.count ≠ 0 ∧ admissibleB B h1 o.ignoreWhitespace o.maxFuzz h1.pos0.toNat 0 = false) ∨
+  (h1.old.count = 0 ∧ h1.old.start = 0 ∧ B ≠ [])
 
 /-! ### helpers -/
 
 theorem forward_not_perfect (B : List Line) (h1 : Hunk) (o : ApplyOpts)
     (hamb : FirstHunkNoLongerFits B h1 o) (hf : o.force = false) :
     shouldCheckReversed (locateHunk B h1 o.ignoreWhitespace 0 o.maxFuzz 0) o = true := by
-  unfold shouldCheckReversed
-  cases hl : locateHunk B h1 o.ignoreWhitespace 0 o.maxFuzz 0 with
-  | none => simp [hf]
-  | some l =>
-    simp only []
-    split
-    · next hc =>
-      exfalso
-      obtain ⟨p, f, e1, e2, _, hadm, e3⟩ :=
-        C02.locate_sound B h1 o.ignoreWhitespace 0 o.maxFuzz 0 l hl hamb.1
-      have hf0 : f = 0 := by omega
-      have hp : h1.pos0.toNat = p := by unfold Hunk.pos0; omega
-      rw [hf0, ← hp, hamb.2] at hadm
-      cases hadm
-    · simp [hf]
+  rcases hamb with hamb | ⟨hc, hs, hB⟩
+  · unfold shouldCheckReversed
+    cases hl : locateHunk B h1 o.ignoreWhitespace 0 o.maxFuzz 0 with
+    | none => simp [hf]
+    | some l =>
+      simp only []
+      split
+      · next hc =>
+        exfalso
+        obtain ⟨p, f, e1, e2, _, hadm, e3⟩ :=
+          C02.locate_sound B h1 o.ignoreWhitespace 0 o.maxFuzz 0 l hl hamb.1
+        have hf0 : f = 0 := by omega
+        have hp : h1.pos0.toNat = p := by unfold Hunk.pos0; omega
+        rw [hf0, ← hp, hamb.2] at hadm
+        cases hadm
+      · simp [hf]
+  · have hl : locateHunk B h1 o.ignoreWhitespace 0 o.maxFuzz 0 = none := by
+      unfold locateHunk
+      simp [hc, hs, hB]
+    rw [hl]
+    simp [shouldCheckReversed, hf]
 
 theorem reversed_perfect (file : List Line) (h1 : Hunk) (rest : List Hunk) (o : ApplyOpts)
     (hv : Valid file 0 0 (h1 :: rest)) (hx : NoReversedD2 file (h1 :: rest)) (hF : 0 ≤ o.maxFuzz) :
@@ -118,7 +127,8 @@ theorem C06_t (file : List Line) (h1 : Hunk) (rest : List Hunk) (p0 : Patch) (o 
     (hD : o.define = []) (hF : 0 ≤ o.maxFuzz) :
     ∃ r, applyPatch (splice file 0 (h1 :: rest)) p0 o tty = .ok r ∧
       r.out.map Out.line = file ∧ r.rejected = [] ∧ r.skipped = false ∧
-      Msg.reversedDetected false ∈ r.msgs ∧ Msg.assumingR ∈ r.msgs ∧ r.tty = tty := by
+      Msg.reversedDetected false ∈ r.msgs ∧ Msg.assumingR ∈ r.msgs ∧ r.tty = tty ∧
+      r.patch = reversePatch p0 := by
   obtain ⟨hv', hs', q, hq⟩ := reversed_perfect file h1 rest o hv hx hF
   have hsc := forward_not_perfect _ h1 o hamb hf
   generalize splice file 0 (h1 :: rest) = B at *
@@ -126,20 +136,75 @@ theorem C06_t (file : List Line) (h1 : Hunk) (rest : List Hunk) (p0 : Patch) (o 
   simp only [hR, Bool.false_eq_true, if_false, hp, hsc, if_true, hq, isPerfect, beq_self_eq_true, Bool.and_self,
     Bool.true_or, checkHowToHandleReversed, hN, ht, Bool.not_false]
   obtain ⟨s3, e, b1, b2, _, _, b5, _, _, b8, b9⟩ :=
-    C01.applyRest_valid B o { p0 with hunks := reverseHunk h1 :: rest.map reverseHunk } hD hF 0 0 _ hv'
+    C01.applyRest_valid B o (reversePatch p0) hD hF 0 0 _ hv'
       ({ msgs := [Msg.reversedDetected false, Msg.assumingR], tty := tty } : AState) 0 rfl rfl rfl
-  have hfold := C01.first_then_rest B o { p0 with hunks := reverseHunk h1 :: rest.map reverseHunk }
+  have hfold := C01.first_then_rest B o (reversePatch p0)
     ({ msgs := [Msg.reversedDetected false, Msg.assumingR], tty := tty } : AState) (reverseHunk h1)
-    (rest.map reverseHunk) (C01.finishRes B { p0 with hunks := reverseHunk h1 :: rest.map reverseHunk })
+    (rest.map reverseHunk) (C01.finishRes B (reversePatch p0))
   simp only [hq] at hfold
-  refine ⟨C01.finishRes B { p0 with hunks := reverseHunk h1 :: rest.map reverseHunk } s3, ?_, ?_, b2, b5, ?_, ?_, b9⟩
+  refine ⟨C01.finishRes B (reversePatch p0) s3, ?_, ?_, b2, b5, ?_, ?_, b9, rfl⟩
   · refine Eq.trans hfold ?_
     rw [e]
-  · have : (C01.finishRes B { p0 with hunks := reverseHunk h1 :: rest.map reverseHunk } s3).out =
+  · have : (C01.finishRes B (reversePatch p0) s3).out =
         s3.out ++ copyRange B s3.cursor (B.length - s3.cursor) := rfl
     rw [this, b1, hs']; rfl
   · exact b8.subset (by simp)
   · exact b8.subset (by simp)
+
+/-- re-applying a file-creating patch with -t: the patch handed back to the driver is a deletion (so the driver
+    removes the file, as it does with -R), and its output is the original (empty) content -/
+theorem C06_t_creation (file : List Line) (h1 : Hunk) (rest : List Hunk) (p0 : Patch) (o : ApplyOpts)
+    (tty : Option (List Bool))
+    (hv : Valid file 0 0 (h1 :: rest)) (hx : NoReversedD2 file (h1 :: rest)) (hp : p0.hunks = h1 :: rest)
+    (hamb : FirstHunkNoLongerFits (splice file 0 (h1 :: rest)) h1 o)
+    (hN : o.ignoreReversed = false) (ht : o.batch = true) (hf : o.force = false) (hR : o.reverse = false)
+    (hD : o.define = []) (hF : 0 ≤ o.maxFuzz) (hadd : p0.operation = .add) :
+    ∃ r, applyPatch (splice file 0 (h1 :: rest)) p0 o tty = .ok r ∧
+      r.patch.operation = .delete ∧ r.patch.oldPath = p0.newPath ∧ r.patch.newPath = p0.oldPath ∧
+      r.out.map Out.line = file ∧ r.rejected = [] ∧ r.skipped = false := by
+  obtain ⟨r, h0, h1', h2, h3, _, _, _, h7⟩ := C06_t file h1 rest p0 o tty hv hx hp hamb hN ht hf hR hD hF
+  refine ⟨r, h0, ?_, ?_, ?_, h1', h2, h3⟩
+  · rw [h7]; simp [reversePatch, hadd]
+  · rw [h7]; rfl
+  · rw [h7]; rfl
+
+/-! ### the hypotheses are satisfiable: `@@ -0,0 +1,2 @@ +a +b` creates a file from nothing; run again on the
+    created file `a b` with -t, it is taken back -/
+
+def crA : Line := ⟨[97], .lf⟩
+def crB : Line := ⟨[98], .lf⟩
+def crHunk : Hunk := ⟨⟨0, 0⟩, ⟨1, 2⟩, [⟨PLUS, crA⟩, ⟨PLUS, crB⟩]⟩
+def crPatch : Patch := { operation := .add, newPath := [102], hunks := [crHunk] }
+
+theorem crValid : Valid [] 0 0 [crHunk] :=
+  Valid.cons 0 0 crHunk [] 0 (by unfold Hunk.WF; decide) (by decide) (by decide) (by decide) (by decide) (by decide)
+    (by decide) (Valid.nil _ _ (by decide))
+
+example : splice [] 0 [crHunk] = [crA, crB] := by decide
+
+example : ∃ r, applyPatch [crA, crB] crPatch { batch := true } none = .ok r ∧
+    r.patch.operation = .delete ∧ r.patch.oldPath = [102] ∧ r.patch.newPath = [] ∧
+    r.out.map Out.line = [] ∧ r.rejected = [] ∧ r.skipped = false :=
+  C06_t_creation [] crHunk [] crPatch { batch := true } none crValid
+    (by intro h hh; simp only [List.mem_singleton] at hh; subst hh; decide)
+    rfl (Or.inr (by decide)) rfl rfl rfl rfl rfl (by decide) rfl
+
+/-- the same hypotheses with an ordinary (changing) first hunk: `-a +b` on the file `a`, run again on `b` -/
+def chA : Line := ⟨[97], .lf⟩
+def chB : Line := ⟨[98], .lf⟩
+def chHunk : Hunk := ⟨⟨1, 1⟩, ⟨1, 1⟩, [⟨MINUS, chA⟩, ⟨PLUS, chB⟩]⟩
+
+theorem chValid : Valid [chA] 0 0 [chHunk] :=
+  Valid.cons 0 0 chHunk [] 0 (by unfold Hunk.WF; decide) (by decide) (by decide) (by decide) (by decide) (by decide)
+    (by decide) (Valid.nil _ _ (by decide))
+
+example : ∃ r, applyPatch [chB] { hunks := [chHunk] } { batch := true } none = .ok r ∧
+    r.out.map Out.line = [chA] ∧ r.rejected = [] ∧ r.skipped = false ∧
+    Msg.reversedDetected false ∈ r.msgs ∧ Msg.assumingR ∈ r.msgs ∧ r.tty = none ∧
+    r.patch = reversePatch { hunks := [chHunk] } :=
+  C06_t [chA] chHunk [] { hunks := [chHunk] } { batch := true } none chValid
+    (by intro h hh; simp only [List.mem_singleton] at hh; subst hh; decide)
+    rfl (Or.inl ⟨by decide, by decide⟩) rfl rfl rfl rfl rfl (by decide)
 
 /-- with -f no guess is made: the result does not depend on the tty, nothing is asked, no "reversed" message -/
 theorem C06_f (file : List Line) (p0 : Patch) (o : ApplyOpts) (tty : Option (List Bool))
